@@ -729,6 +729,10 @@ def lower_names(labels):
     return sorted({c.lower() for lab in labels for c in lab})
 
 
+def rw_is_inverse(letter):
+    return letter != letter.lower()
+
+
 def exact_check(run, exact, mats, words, dim, what):
     """exact-integer class: the matrices are the exact integer products."""
     if exact is None or words is None:
@@ -737,7 +741,21 @@ def exact_check(run, exact, mats, words, dim, what):
     arr = raw_matrices(mats)
     worst = 0.0
     for i, w in enumerate(words):
-        ref = fl.product(exact, list(w), dim, dtype=np.int64)
+        # exactness is promised by nothing but integer arithmetic: only words in
+        # the generators themselves (whose stored matrices are the integer ones;
+        # the inverse letters hold the library's floating-point inverses, judged
+        # with a tolerance by the images monitor) and only while the exact product
+        # (Python integers: no wrap-around) stays below 2^53, where neither int64
+        # nor float64 arithmetic can round or overflow.  (False alarm of thorough
+        # seed 3: a 24-letter word, product ~1e24, reference wrapped in int64
+        # while the library had switched to float64.)
+        if any(rw_is_inverse(c) for c in w):
+            continue
+        ref = fl.product(exact, list(w), dim, dtype=object)
+        big = max(abs(int(x)) for x in np.asarray(ref, dtype=object).ravel())
+        if big >= 2 ** 53:
+            continue
+        ref = np.asarray(ref, dtype=float)
         r = float(np.max(np.abs(np.asarray(arr[i], dtype=float) - ref)) / (1.0 + np.max(np.abs(ref))))
         worst = max(worst, r)
     mon.judge(worst, 1e-9, "images-exact/not-the-integer-product/%s" % what,
